@@ -76,9 +76,11 @@ LEVEL_NOTE = ('Trusted: Coq kernel, extraction incl. ExtrOCamlFloats, OCaml libm
               'semantics as modelled.')
 
 KEY_NANINF = 'get-distance-accepts-nan-inf'
+KEY_MILE = 'unit-mile-rejected'
+KEY_EXP = 'circle-kernel-exponent-radius'
 # property text: "radius strings in metres, kilometres, feet or miles convert to metres" — written independently of the source
 ORACLE_UNITS = {'meter': '1', 'meters': '1', 'm': '1', 'foot': '0.3048', 'feet': '0.3048', 'ft': '0.3048',
-                'mile': None, 'miles': '1609.344', 'mls': '1609.344', 'ml': '1609.344',
+                'mile': '1609.344', 'miles': '1609.344', 'mls': '1609.344', 'ml': '1609.344',
                 'kilometer': '1000', 'kilometers': '1000', 'km': '1000'}
 
 
@@ -241,6 +243,13 @@ def gen_plane_point(rng, kind):
         return (rng.uniform(-1, 1) * 1e12, rng.uniform(-1, 1) * 1e12)
     if kind == 'small':
         return (rng.uniform(-1, 1) * 1e-6, rng.uniform(-1, 1) * 1e-6)
+    if kind == 'intargs':        # Python ints: Numba compiles an integer signature (manhattan then returns an int)
+        return (rng.randint(-1000, 1000), rng.randint(-1000, 1000))
+    if kind == 'huge':           # squares near 1e200, still finite
+        return (rng.uniform(-1, 1) * 1e100, rng.uniform(-1, 1) * 1e100)
+    if kind == 'axes':           # zeros, signed zeros, points on the axes, exact 2**53 neighbours
+        return (rng.choice([0.0, -0.0, 1.0, -1.0, 2.0 ** 53, -(2.0 ** 53), 2.0 ** 53 - 1, 0.5, 1e-300]),
+                rng.choice([0.0, -0.0, 1.0, -1.0, 2.0 ** 53, 3.0, 1e-300]))
     return (rng.uniform(-1000, 1000), rng.uniform(-1000, 1000))
 
 
@@ -253,7 +262,8 @@ def plane_oracle(name, f, A, B, C):
         return '%s not symmetric: d(A,B)=%r d(B,A)=%r for A=%r B=%r' % (name, dab, dba, A, B)
     if daa != 0:
         return '%s: d(A,A)=%r for A=%r' % (name, daa, A)
-    if (dab == 0) != (A == B):
+    tiny = name == 'euclidean' and max(abs(A[0] - B[0]), abs(A[1] - B[1])) < 1e-150       # x*x underflows: stated assumption
+    if (dab == 0) != (A == B) and not tiny:
         return '%s: d(A,B)=%r but A=%r B=%r (zero iff coincident)' % (name, dab, A, B)
     if dab < 0:
         return '%s negative: %r' % (name, dab)
@@ -267,7 +277,7 @@ def plane_oracle(name, f, A, B, C):
         exact2 = dx * dx + dy * dy
         lo = Fraction(dab) - 3 * Fraction(ulp(dab))
         hi = Fraction(dab) + 3 * Fraction(ulp(dab))
-        if not (max(lo, 0) ** 2 <= exact2 <= hi ** 2):
+        if not tiny and not (max(lo, 0) ** 2 <= exact2 <= hi ** 2):
             return 'euclidean d(A,B)=%r: d^2 differs from dx^2+dy^2=%r for A=%r B=%r' % (dab, float(exact2), A, B)
     slack = 4 * ulp(dab + dbc)
     if dac > dab + dbc + slack:
@@ -277,7 +287,7 @@ def plane_oracle(name, f, A, B, C):
 
 def run_plane(ctx, prox, lines, cmp):
     n = 1500 if ctx.quick() else 20000
-    kinds = ['int', 'dyadic', 'rand', 'big', 'small']
+    kinds = ['int', 'dyadic', 'rand', 'big', 'small', 'intargs', 'huge', 'axes']
     for i in range(n):
         rng = ctx.rng
         kind = kinds[i % len(kinds)]
@@ -288,7 +298,7 @@ def run_plane(ctx, prox, lines, cmp):
         if mode < 0.12:
             B = A
         elif mode < 0.2:
-            C = (A[0] + 2 * (B[0] - A[0]), A[1] + 2 * (B[1] - A[1]))     # collinear
+            C = (A[0] + 2 * (B[0] - A[0]), A[1] + 2 * (B[1] - A[1]))     # collinear (ints stay ints)
         elif mode < 0.25:
             B = (A[0], B[1])
         for name, f in (('euclidean', prox.euclidean_distance), ('manhattan', prox.manhattan_distance)):
@@ -316,6 +326,8 @@ def gen_sphere_point(rng, kind):
         return (rng.choice([180.0, -180.0, 179.999999, -179.999999]), rng.uniform(-90, 90))
     if kind == 'grid':
         return (float(rng.randrange(-180, 181, 15)), float(rng.randrange(-90, 91, 15)))
+    if kind == 'zeros':
+        return (rng.choice([0.0, -0.0, 180.0, -180.0, 1e-300, -1e-300, 90.0]), rng.choice([0.0, -0.0, 1e-300, 90.0, -90.0, 45.0]))
     return (rng.uniform(-180, 180), rng.uniform(-90, 90))
 
 
@@ -382,7 +394,7 @@ def sphere_oracle(prox, A, B, C):
 
 def run_sphere(ctx, prox, lines, cmp):
     n = 2000 if ctx.quick() else 30000
-    kinds = ['rand', 'pole', 'antimeridian', 'grid', 'rand']
+    kinds = ['rand', 'pole', 'antimeridian', 'grid', 'zeros']
     for i in range(n):
         rng = ctx.rng
         A = gen_sphere_point(rng, kinds[i % 5])
@@ -428,10 +440,29 @@ def run_sphere(ctx, prox, lines, cmp):
         w = sphere_oracle(prox, A, B, C)
         if w:
             ctx.violation('oracle', w, case)
-        radius = R_EARTH if i % 7 else float(rng.choice([1.0, 1737400.0, 3389500.0]))
+        radius = R_EARTH if i % 7 else float(rng.choice([1.0, 1737400.0, 3389500.0, 0.0, 1e-3, 1e12, 0.5]))
         for P, Q in ((A, B), (B, C), (A, C)):
             lines.append('gc %s %s %s %s %s' % (hx(P[0]), hx(Q[0]), hx(P[1]), hx(Q[1]), hx(radius)))
             cmp.append(('gc', gc_call(prox, P, Q, radius), dict(case, pair=[[jf(v) for v in P], [jf(v) for v in Q]], radius=radius)))
+
+
+def run_sphere_int_args(ctx, prox, lines, cmp):
+    """integer longitudes / latitudes (Numba compiles an integer signature; np.radians converts)"""
+    for i in range(40 if ctx.quick() else 400):
+        rng = ctx.rng
+        pts = [(rng.randrange(-180, 181, 15), rng.randrange(-90, 91, 15)) for _ in range(3)]
+        if i % 5 == 0:
+            pts[1] = (rng.choice([181, -181, 360]), pts[1][1]) if i % 10 == 0 else (pts[1][0], rng.choice([91, -91, 180]))
+        A, B, C = pts
+        case = {'family': 'sphere', 'A': list(A), 'B': list(B), 'C': list(C), 'tag': 'int-args'}
+        ctx.case(case)
+        ctx.count('sphere/int-args')
+        w = sphere_oracle(prox, A, B, C)
+        if w:
+            ctx.violation('oracle', w, case)
+        for P, Q in ((A, B), (B, C), (A, C)):
+            lines.append('gc %s %s %s %s %s' % (hx(P[0]), hx(Q[0]), hx(P[1]), hx(Q[1]), hx(R_EARTH)))
+            cmp.append(('gc', gc_call(prox, P, Q), dict(case, pair=[list(P), list(Q)])))
 
 
 GC_ERR = {'first point': {'x': 'BadX1', 'y': 'BadY1'}, 'second point': {'x': 'BadX2', 'y': 'BadY2'}}
@@ -495,7 +526,7 @@ def gen_dist_string(rng, units):
     if k < 0.50:
         return '-' + num + rng.choice(['', ' km']), 'negative'
     if k < 0.56:
-        return num + rng.choice([' mile', ' yard', 'kms', ' k', ' metre', ' .', '.', ' km.', 'm/s', ' km\n', '\tkm', ' -', '--']), 'bad-unit'
+        return num + rng.choice([' mils', ' yard', 'kms', ' k', ' metre', ' .', '.', ' km.', 'm/s', ' km\n', '\tkm', ' -', '--']), 'bad-unit'
     if k < 0.60:
         return num + rng.choice([' ', '  ', '\n']), 'blank-unit'
     if k < 0.65:
@@ -578,14 +609,16 @@ def check_dist(ctx, conv, s, tag, units_tbl, default_unit, lines, cmp):
         if r[1] != 'ValueError':
             ctx.violation('oracle', '_get_distance(%r) raised %s: %s (ValueError expected for a rejected distance)' % (s, r[1], r[2]), case)
         elif exp[0] == 'ok':
-            ctx.violation('oracle', '_get_distance(%r) rejected a valid distance (%s), expected %r metres' % (s, r[2][:40], float(exp[1])), case)
+            end_ = parse_decimal(s, 0)
+            ctx.violation('oracle', '_get_distance(%r) rejected a valid distance (%s), expected %r metres' % (s, r[2][:40], float(exp[1])), case,
+                          key=KEY_MILE if s[end_:].lower().replace(' ', '') == 'mile' else None)
     lines.append('dist %s' % sx(s))
     cmp.append(('dist', r, case))
 
 
 def run_dist(ctx, conv, lines, cmp):
     default_unit, units_tbl = read_units(os.environ.get('VERIF_REPO', '/repo'))
-    units = [k for k, _ in units_tbl]
+    units = [k for k, _ in units_tbl] + [k for k in ORACLE_UNITS if k not in dict(units_tbl)]
     # every unit, bare and spaced, once
     for u in units:
         for s in ('3' + u, '2.5 ' + u.upper(), '.25 ' + ' '.join(u)):
@@ -622,6 +655,18 @@ def ellipse_mask_oracle(k, hw, hh):
     if k[hh, hw] != 1:
         return 'kernel centre is %r' % k[hh, hw]
     return None
+
+
+def radius_str(radius):
+    """the string circle_kernel hands to _get_distance: numbers written positionally (str() of a small or large float is
+    in exponent notation, which the distance grammar does not have)"""
+    if isinstance(radius, (int, float, np.integer, np.floating)) and not isinstance(radius, bool):
+        return np.format_float_positional(radius, trim='-')
+    return str(radius)
+
+
+def is_exponent_radius(radius):
+    return isinstance(radius, (float, np.floating)) and 'e' in str(radius).lower() and math.isfinite(float(radius))
 
 
 def exact_half(r, cs):
@@ -680,7 +725,23 @@ def run_kernels(ctx, conv, lines, cmp):
                 radius = '%d%s' % (kq, rng.choice(['ft', ' ft', 'feet']))
             else:
                 radius = float(repr(kq * c0)) if rng.random() < 0.5 else round(kq * c0, 4)
-        rs = str(radius)
+        wide = rng.random()
+        if wide < 0.06:
+            # small radii on small cells (degree-sized rasters): str(5e-05) is in exponent notation
+            c0 = rng.choice([1e-5, 2.5e-6, 1e-7, 3e-5])
+            cx, cy = c0, (c0 if rng.random() < 0.5 else c0 * rng.choice([0.5, 2.0, 3.0]))
+            radius = float(repr(c0 * rng.choice([1, 2, 3.5, 5, 7.25])))
+        elif wide < 0.10:
+            # very large radii on very large cells
+            c0 = rng.choice([1e15, 4e15, 2.5e16])
+            cx, cy = c0, (c0 if rng.random() < 0.5 else c0 * 2)
+            radius = float(c0 * rng.choice([1, 3, 6.5, 10]))
+        elif wide < 0.16 and isinstance(radius, (int, float)) and not isinstance(radius, bool):
+            # NumPy scalars as radius, integer cell sizes
+            radius = rng.choice([np.float64, np.float32, np.int64, np.int32])(radius)
+            if rng.random() < 0.5:
+                cx, cy = rng.choice([1, 2, 3]), rng.choice([1, 2, 5])
+        rs = radius_str(radius)
         exp = dist_oracle(rs, units_tbl, default_unit)
         if exp[0] == 'ok':
             # keep the kernel small (a 9999 ft radius on 0.25 m cells would be a 24381 x 24381 array)
@@ -688,7 +749,8 @@ def run_kernels(ctx, conv, lines, cmp):
                 cx *= 4.0
             while float(exp[1]) / cy > 60:
                 cy *= 4.0
-        case = {'family': 'circle', 'cx': cx, 'cy': cy, 'radius': radius}
+        case = {'family': 'circle', 'cx': cx, 'cy': cy, 'radius': radius if isinstance(radius, (str, int, float)) else
+                '%s(%r)' % (type(radius).__name__, radius.item())}
         ctx.case(case)
         r = call(conv.circle_kernel, cx, cy, radius)
         if exp[0] == 'ok':
@@ -704,7 +766,8 @@ def run_kernels(ctx, conv, lines, cmp):
             if hw > 150 or hh > 150:
                 continue
             if r[0] != 'ok':
-                ctx.violation('oracle', 'circle_kernel(%r,%r,%r) raised %s: %s' % (cx, cy, radius, r[1], r[2]), case)
+                ctx.violation('oracle', 'circle_kernel(%r,%r,%r) raised %s: %s' % (cx, cy, radius, r[1], r[2]), case,
+                              key=KEY_EXP if (is_exponent_radius(radius) and 'Invalid distance' in r[2]) else None)
             elif hw == hwx and hh == hhx:
                 w = ellipse_mask_oracle(r[1], hw, hh)
                 if w:
@@ -722,16 +785,16 @@ def run_kernels(ctx, conv, lines, cmp):
             inner_kind = rng.random()
             if isinstance(radius, str):
                 inner = radius if inner_kind < 0.3 else rng.choice(['1', '0.5', '2 ft', '1m'])
-            elif inner_kind < 0.15:
+            elif inner_kind < 0.15 or not isinstance(radius, (int, float)):
                 inner = radius
             elif inner_kind < 0.85:
                 inner = round(float(radius) * rng.uniform(0.05, 0.99), rng.randint(1, 3)) or radius
             else:
                 inner = float(radius) + rng.randint(1, 3)
-            case2 = {'family': 'annulus', 'cx': cx, 'cy': cy, 'outer': radius, 'inner': inner}
+            case2 = {'family': 'annulus', 'cx': cx, 'cy': cy, 'outer': case['radius'], 'inner': inner}
             ctx.case(case2)
             ra = call(conv.annulus_kernel, cx, cy, radius, inner)
-            expi = dist_oracle(str(inner), units_tbl, default_unit)
+            expi = dist_oracle(radius_str(inner), units_tbl, default_unit)
             if expi[0] == 'ok':
                 ki = call(conv.circle_kernel, cx, cy, inner)
                 ko = np.asarray(r[1])
@@ -753,7 +816,7 @@ def run_kernels(ctx, conv, lines, cmp):
                             ctx.violation('oracle', 'annulus_kernel(%r,%r,%r,%r) not flip symmetric' % (cx, cy, radius, inner), case2)
                 else:
                     ctx.count('annulus/inner>outer')
-            lines.append('annulus %s %s %s %s' % (hx(cx), hx(cy), sx(rs), sx(str(inner))))
+            lines.append('annulus %s %s %s %s' % (hx(cx), hx(cy), sx(rs), sx(radius_str(inner))))
             cmp.append(('kernel', ra, case2))
 
 
@@ -767,7 +830,13 @@ def run_cellsize(ctx, conv, lines, cmp):
     for i in range(n):
         rng = ctx.rng
         h, w = rng.randint(2, 6), rng.randint(2, 7)
+        if rng.random() < 0.05:
+            h, w = rng.choice([2, 40, 257]), rng.choice([2, 33, 300])
         data = np.zeros((h, w))
+        dims = list(rng.choice([('y', 'x'), ('y', 'x'), ('lat', 'lon'), ('row', 'col')]))
+        if rng.random() < 0.12:          # a band axis in front: the last two dims are y, x
+            data = np.zeros((2, h, w))
+            dims = ['band'] + dims
         mode = rng.random()
         attrs = {}
         unit_choice = rng.random()
@@ -782,15 +851,19 @@ def run_cellsize(ctx, conv, lines, cmp):
         if mode < 0.35:
             rx = rng.choice([0.5, 1.0, 30.0, 0.1, rng.uniform(0.01, 100)])
             ry = rng.choice([rx, -rx, 0.25, -2.0, rng.uniform(0.01, 100)])
-            attrs['res'] = (rx, ry)
+            form = rng.random()
+            if form < 0.2:
+                rx, ry = rng.choice([1, 3, 30]), rng.choice([1, -2, 25])          # Python ints
+            attrs['res'] = (rx, ry) if form < 0.55 else ([rx, ry] if form < 0.8 else np.array([rx, ry], dtype='float64'))
+            rx, ry = float(rx), float(ry)
             src = 'res-pair'
-            raster = xr.DataArray(data, dims=['y', 'x'], attrs=attrs)
+            raster = xr.DataArray(data, dims=dims, attrs=attrs)
             resline = None
         elif mode < 0.5:
             rx = ry = rng.choice([0.5, 1.0, 30.0, 0.1, 3])
             attrs['res'] = rx
             src = 'res-scalar'
-            raster = xr.DataArray(data, dims=['y', 'x'], attrs=attrs)
+            raster = xr.DataArray(data, dims=dims, attrs=attrs)
             resline = None
             rx = ry = float(rx)
         else:
@@ -798,9 +871,14 @@ def run_cellsize(ctx, conv, lines, cmp):
             y0, dy = rng.uniform(-100, 100), rng.choice([0.5, 1.0, 0.1, 30.0, rng.uniform(0.01, 10)])
             xs = x0 + dx * np.arange(w)
             ys = y0 + dy * np.arange(h)
+            if rng.random() < 0.15:        # uneven spacing: the resolution is still (max - min) / (n - 1)
+                xs = x0 + np.cumsum([0.0] + [rng.uniform(0.1, 2.0) * dx for _ in range(w - 1)])
+                ys = y0 + np.cumsum([0.0] + [rng.uniform(0.1, 2.0) * dy for _ in range(h - 1)])
             if rng.random() < 0.5:
                 ys = ys[::-1]
-            raster = xr.DataArray(data, dims=['y', 'x'], coords={'y': ys, 'x': xs}, attrs=attrs)
+            if rng.random() < 0.25:
+                xs = xs[::-1]
+            raster = xr.DataArray(data, dims=dims, coords={dims[-2]: ys, dims[-1]: xs}, attrs=attrs)
             src = 'coords'
             rx = (float(xs.max()) - float(xs.min())) / (w - 1)
             ry = (float(ys.max()) - float(ys.min())) / (h - 1)
@@ -907,6 +985,7 @@ def run(ctx):
     lines, cmp = [], []
     run_plane(ctx, prox, lines, cmp)
     run_sphere(ctx, prox, lines, cmp)
+    run_sphere_int_args(ctx, prox, lines, cmp)
     run_dist(ctx, conv, lines, cmp)
     run_kernels(ctx, conv, lines, cmp)
     run_cellsize(ctx, conv, lines, cmp)
